@@ -440,7 +440,7 @@ func TestC11_RandomCalls(t *testing.T) {
 	defer c.Finish()
 	strFns := []string{"len", "split", "trim", "trimRight", "trimLeft", "upper", "lower", "capitalize", "reverse", "contains", "truncate", "decimal", "at", "first", "last", "repeat"}
 	arrFns := []string{"len", "join", "reverse", "slice", "contains", "append", "prepend"}
-	runRapid(t, c, 20000, 80000, func(rt *rapid.T) {
+	runRapid(t, c, 20000, 240000, func(rt *rapid.T) {
 		var recv V
 		var fn string
 		var args []V
@@ -813,7 +813,7 @@ func TestC11_Aliasing(t *testing.T) {
 		run(t, aliasCase{Base: base, Steps: []aliasStep{{From: 0, Fn: "prepend", Args: []int64{1}}, {From: 0, Fn: "prepend", Args: []int64{2}}, {From: 0, Fn: "reverse"}, {From: 3, Fn: "append", Args: []int64{5}}}}, true)
 	}
 	c.ExhaustivePart("base lengths 0..6 x all slice bounds x two appends/prepend/reverse on the slice; double appends on one receiver")
-	runRapid(t, c, 3000, 15000, func(rt *rapid.T) {
+	runRapid(t, c, 3000, 45000, func(rt *rapid.T) {
 		n := rapid.IntRange(0, 7).Draw(rt, "baseLen")
 		cs := aliasCase{Base: make([]int64, n)}
 		for i := range cs.Base {
